@@ -567,7 +567,14 @@ func verifC04(c *drv.Ctx) {
 			defer0 := func() { c.Add(string(u.sec)+"_wall_ms", c04nowMs()-t0) }
 			switch u.sec {
 			case 't':
-				c04shape(c, rows)
+				// constructor calls at the boundary sizes: milliseconds; a size whose limit wrapped makes the
+				// constructor walk the whole group for ever
+				if !drv.Watchdog(60*time.Second, func() { c04shape(c, rows) }) {
+					c04hung = true
+					fail('t', 0, "t:hang", "the table-shape unit (constructor calls at the boundary sizes 1, 2^k, 2^32, 2^32+60, and the sizes that must be rejected) did not finish within 60 s (it takes milliseconds): a constructor call does not return", nil)
+					c.R.Exhaustive = false
+					c.FlushAndExit()
+				}
 			case 'a':
 				c04partA(c, rows, u, need(rows[u.row].P), fail)
 			case 'b':
@@ -1059,18 +1066,29 @@ func c04consumers(c *drv.Ctx, fail func(sec byte, row int, key, desc string, rep
 	ctx := context.Background()
 	// every case is an execution of its own; it ends when the harness thread is done, whatever the
 	// generator's goroutine is still doing (a walk over 2^32 addresses is not waited for)
+	cur := ""
 	run := func(f func()) {
-		x := vs.Run(nil, func(s *vs.Sched) {
-			s.Horizon = math.MaxInt / 2
-			s.StopAtMain = true
-			s.RandFn = func(_ string, _ uint64, n uint64) uint64 { return c04rand.next(n) }
-		}, f)
+		var x *vs.Exec
+		// a case takes milliseconds; one that is still running after a minute never ends (a size that wrapped
+		// to 0 makes the constructor walk the whole group)
+		if !drv.Watchdog(60*time.Second, func() {
+			x = vs.Run(nil, func(s *vs.Sched) {
+				s.Horizon = math.MaxInt / 2
+				s.StopAtMain = true
+				s.RandFn = func(_ string, _ uint64, n uint64) uint64 { return c04rand.next(n) }
+			}, f)
+		}) {
+			fail('f', 998, "f:hang:"+cur, fmt.Sprintf("%s through the real generator: constructing it and taking the first values did not finish within 60 s (it takes milliseconds)", cur), nil)
+			c.R.Exhaustive = false
+			c.FlushAndExit()
+		}
 		for _, cr := range x.Crashes {
 			fail('f', 999, "f:crash", fmt.Sprintf("a generator crashed: %v", cr.Value), nil)
 		}
 	}
 	for pi, pr := range [][2]uint16{{0, 65535}, {1, 65535}, {0, 65534}, {0, 0}, {65535, 65535}, {32767, 32768}, {0, 32767}, {32768, 65535}, {255, 256}, {0, 255}, {256, 511}} {
 		c04rand = c04src{q: [2]uint64{12345, 6789}}
+		cur = fmt.Sprintf("port range %d-%d", pr[0], pr[1])
 		want := int(pr[1]) - int(pr[0]) + 1
 		seen := make([]bool, 65536)
 		n, bad := 0, ""
@@ -1115,6 +1133,7 @@ func c04consumers(c *drv.Ctx, fail func(sec byte, row int, key, desc string, rep
 			take = 64 // a large subnet is not walked to its end: the first addresses, then the execution ends
 		}
 		c04rand = c04src{q: [2]uint64{424242, 171717}}
+		cur = "subnet " + sn
 		seen := map[[4]byte]bool{}
 		bad := ""
 		run(func() {
